@@ -43,6 +43,9 @@ Theorem C15_macd_homogeneous : forall c f s g xs,
   macd_signal f s g (map (Qcmult c) xs) = map (Qcmult c) (macd_signal f s g xs) /\
   macd_hist f s g (map (Qcmult c) xs) = map (Qcmult c) (macd_hist f s g xs).
 Proof. intros c f s g xs. exact (conj (macd_line_homogeneous c f s xs) (conj (macd_signal_homogeneous c f s g xs) (macd_hist_homogeneous c f s g xs))). Qed.
+(* a volatility measure in price units scales with the price too: ATR of candles whose prices are multiplied by c >= 0 *)
+Theorem C15_atr_homogeneous : forall c p ks, 0 <= c -> atr p (map (scale_kc c) ks) = map (scale_opt c) (atr p ks).
+Proof. exact atr_homogeneous. Qed.
 (* bounded oscillator: the money flow index of candles with non-negative prices and volumes, every period *)
 Theorem C15_mfi_in_range : forall p ks, Forall nonneg_kc ks -> Forall (in_range 0 (qofnat 100)) (mfi p ks).
 Proof. exact mfi_in_range. Qed.
@@ -76,3 +79,4 @@ Print Assumptions C15_tema_homogeneous.
 Print Assumptions C15_macd_homogeneous.
 Print Assumptions C15_mfi_in_range.
 Print Assumptions C15_keltner_ordered.
+Print Assumptions C15_atr_homogeneous.
